@@ -352,6 +352,7 @@ class Pdu:
         self.buf = bytearray()
         self.claimed = bytearray()
         self.overlap = False
+        self.conflict = False  # a bit was claimed twice with different values
 
     def ensure(self, n: int) -> None:
         if len(self.buf) < n:
@@ -364,6 +365,8 @@ class Pdu:
             m = mask[k]
             if claim and (self.claimed[pos + k] & m):
                 self.overlap = True
+                if (self.buf[pos + k] ^ data[k]) & self.claimed[pos + k] & m:
+                    self.conflict = True
             self.buf[pos + k] = (self.buf[pos + k] & ~m & 0xFF) | (data[k] & m)
             if claim:
                 self.claimed[pos + k] |= m
@@ -1177,7 +1180,7 @@ class Ref:
         self.enc_params(cx, msg["params"], values, 0, True)
         return Encoded(bytes(cx.pdu.buf), cx.pdu.overlap,
                        bool(getattr(cx, "implicit_keys", None)),
-                       bool(getattr(cx, "endmarker_used", False)))
+                       bool(getattr(cx, "endmarker_used", False)), cx.pdu.conflict)
 
     def const_prefix(self, msg: J) -> bytes:
         """Leading bytes of every PDU of the message that are fully determined by constants."""
@@ -1206,11 +1209,13 @@ class Ref:
 
 class Encoded:
 
-    def __init__(self, pdu: bytes, overlap: bool, implicit_keys: bool, endmarker: bool):
+    def __init__(self, pdu: bytes, overlap: bool, implicit_keys: bool, endmarker: bool,
+                 conflict: bool = False):
         self.pdu = pdu
         self.overlap = overlap
         self.implicit_keys = implicit_keys
         self.endmarker = endmarker
+        self.conflict = conflict
 
 
 # ---------------------------------------------------------------------------
